@@ -44,7 +44,10 @@ def _prune(keep=4):
         return
     dirs = [d for d in dirs if os.path.isdir(d)]
     dirs.sort(key=lambda d: os.path.getmtime(d), reverse=True)
+    now = time.time()
     for d in dirs[keep:]:
+        if now - os.path.getmtime(d) < 4 * 3600:
+            continue        # possibly still loaded by children of a long run started from that tree
         for f in os.listdir(d):
             try:
                 os.unlink(os.path.join(d, f))
